@@ -18,6 +18,15 @@ type ngJob struct {
 	pre, term, card string
 	body            ngBody
 	extra           string // "", "disjoint", "overlap"
+	uni             bool   // the twin over non-ASCII characters: b is written → and c is written é
+}
+
+// uniText rewrites rule text or input for the non-ASCII twin of a job.
+func (j ngJob) uniText(s string) string {
+	if !j.uni {
+		return s
+	}
+	return strings.NewReplacer("b", "→", "c", "é").Replace(s)
 }
 
 func ngJobs() []ngJob {
@@ -30,7 +39,11 @@ func ngJobs() []ngJob {
 			for _, tm := range terms {
 				for _, c := range []string{"*?", "+?"} {
 					for _, e := range []string{"", "disjoint", "overlap"} {
-						jobs = append(jobs, ngJob{p, tm, c, b, e})
+						jobs = append(jobs, ngJob{pre: p, term: tm, card: c, body: b, extra: e})
+					}
+					// multi-byte prefix, body and terminator characters
+					if b.text != "[a-c]" && (strings.ContainsAny(p, "bc") || strings.ContainsAny(tm, "bc")) {
+						jobs = append(jobs, ngJob{pre: p, term: tm, card: c, body: b, uni: true})
 					}
 				}
 			}
@@ -125,7 +138,7 @@ func TestNonGreedyGenerated(t *testing.T) {
 		_ = j
 	}
 	for i, j := range jobs {
-		fmt.Fprintf(&sb, "@mode M%04d {\n  N%d = '%s' %s%s '%s'\n", i, i, j.pre, j.body.text, j.card, j.term)
+		fmt.Fprintf(&sb, "@mode M%04d {\n  N%d = '%s' %s%s '%s'\n", i, i, j.uniText(j.pre), j.uniText(j.body.text), j.card, j.uniText(j.term))
 		switch j.extra {
 		case "disjoint":
 			fmt.Fprintf(&sb, "  G%d = [xy]+\n", i)
@@ -170,8 +183,8 @@ func TestNonGreedyGenerated(t *testing.T) {
 			if w < 0 {
 				continue
 			}
-			qs = append(qs, q{i, s, w})
-			reqs = append(reqs, map[string]any{"mode": i + 1, "text": s})
+			qs = append(qs, q{i, s, len(j.uniText(s[:w]))})
+			reqs = append(reqs, map[string]any{"mode": i + 1, "text": j.uniText(s)})
 		}
 	}
 	outs, msg := runProg(g.dir, reqs, 10*time.Minute)
@@ -188,8 +201,8 @@ func TestNonGreedyGenerated(t *testing.T) {
 		}
 		json.Unmarshal(outs[k], &r)
 		j := jobs[x.job]
-		rep.count(x.want < len(x.in))
-		name := fmt.Sprintf("N = '%s' %s%s '%s'", j.pre, j.body.text, j.card, j.term)
+		rep.count(x.want < len(j.uniText(x.in)))
+		name := fmt.Sprintf("N = '%s' %s%s '%s'", j.uniText(j.pre), j.uniText(j.body.text), j.card, j.uniText(j.term))
 		if j.extra == "disjoint" {
 			name += " ; G = [xy]+"
 		}
@@ -211,9 +224,9 @@ func TestNonGreedyGenerated(t *testing.T) {
 			if j.extra == "overlap" {
 				obl += "/with-overlapping-greedy-rule"
 			}
-			rep.fail(obl, name+" input="+x.in, fmt.Sprintf("expected token N ending at %d, the generated lexer returned %s ending at %d", x.want, r.Name, r.End))
+			rep.fail(obl, name+" input="+j.uniText(x.in), fmt.Sprintf("expected token N ending at %d, the generated lexer returned %s ending at %d", x.want, r.Name, r.End))
 		}
 	}
 	rep.sample(fmt.Sprintf("%d rule shapes, %d (shape, input) pairs", len(jobs), len(qs)))
-	rep.done(t, true, fmt.Sprintf("rules 'prefix body(*?|+?) terminator' for 3 prefixes x 6 one-character bodies x 7 literal terminators x 2 operators, alone, with a disjoint greedy rule and with an overlapping greedy rule, each in a mode of its own of one generated package; all inputs over {a,b,c} of length <=%d through the real generated PushRune and loxlex/simplelexer", maxLen))
+	rep.done(t, true, fmt.Sprintf("rules 'prefix body(*?|+?) terminator' for 3 prefixes x 6 one-character bodies x 7 literal terminators x 2 operators, alone, with a disjoint greedy rule, with an overlapping greedy rule, and written with multi-byte characters, each in a mode of its own of one generated package; all inputs over {a,b,c} of length <=%d through the real generated PushRune and loxlex/simplelexer", maxLen))
 }
